@@ -611,6 +611,18 @@ impl<const N: usize> Subscriptions<N> {
         })
     }
 
+    /// Read-only projection: `(id, fabric index, peer node id)` per table row.
+    pub fn verif_ids(&self) -> crate::utils::storage::Vec<(u32, u8, u64), N> {
+        self.state.lock(|state| {
+            let state = state.borrow();
+            let mut rows = crate::utils::storage::Vec::new();
+            for s in &state.subscriptions {
+                let _ = rows.push((s.ids.id, s.ids.fab_idx.get(), s.ids.peer_node_id));
+            }
+            rows
+        })
+    }
+
     /// Read-only projection: `(id, max_seen_event_number)` per table row.
     pub fn verif_event_marks(&self) -> crate::utils::storage::Vec<(u32, u64), N> {
         self.state.lock(|state| {
